@@ -21,6 +21,7 @@ from .c04_selection import (FrameModel, SeriesModel, col_array, model_positional
                             index_labels, nl, arr_cells, cell_eq, spec_kind, all_slices, int_lists, DT)
 
 PID = 'C08'
+DRY = False      # enumeration-size measurement only (set by hand): evaluate nothing
 NULL = ('null',)
 NAN = float('nan')
 
@@ -37,18 +38,57 @@ def block_columns(blocks):
                 yield b[:, j]
 
 
+_DTS = {}
+
+
+def dts(dtype):
+    s_ = _DTS.get(dtype)
+    if s_ is None:
+        s_ = _DTS[dtype] = str(dtype)
+    return s_
+
+
 def obs_frame(r):
     cols = list(block_columns(r._blocks._blocks))
     return dict(rows=index_labels(r.index), cols=index_labels(r.columns), data=[arr_cells(c) for c in cols],
-                dtypes=[str(c.dtype) for c in cols], name=r.name, shape=tuple(r.shape))
+                dtypes=[dts(c.dtype) for c in cols], name=r.name, shape=tuple(r.shape))
 
 
 def obs_series(r):
-    return dict(rows=index_labels(r.index), data=arr_cells(r.values), dtype=str(r.values.dtype), name=r.name)
+    return dict(rows=index_labels(r.index), data=arr_cells(r.values), dtype=dts(r.values.dtype), name=r.name)
 
 
 def model_dtypes(fm):
-    return [str(np.dtype(DT[k])) for k in fm.kinds]
+    d = getattr(fm, '_dts', None)
+    if d is None:
+        d = fm._dts = [str(np.dtype(DT[k])) for k in fm.kinds]
+    return d
+
+
+def fingerprint(c):
+    """cheap per-call stand-in for bounded.common.snapshot: raw bytes (object arrays: the element pointers), dtype, shape and writeable flag of
+    every array of the container plus names.  All cells used here are immutable python objects, so an unchanged fingerprint implies an unchanged
+    snapshot; the full snapshot is compared whenever the fingerprint differs and once more at the end of every case."""
+    import static_frame as sf
+    def a(x):
+        return (x.tobytes(), x.dtype.str, x.shape, x.flags.writeable)
+    if isinstance(c, sf.Frame):
+        return (tuple(a(b) for b in c._blocks._blocks), a(c.index.values), a(c.columns.values), c.name, c.index.name, c.columns.name, c.shape, id(c._index), id(c._columns))
+    return (a(c.values), a(c.index.values), c.name, c.index.name, id(c._index))
+
+
+class Orig:
+    """the original container with its snapshot (taken once) and fingerprint"""
+    def __init__(self, c):
+        self.c, self.snap, self.fp = c, snapshot(c), fingerprint(c)
+
+    def mutated(self):
+        if fingerprint(self.c) == self.fp:
+            return False
+        return snapshot(self.c) != self.snap
+
+    def final_ok(self):
+        return snapshot(self.c) == self.snap
 
 
 # ---------------------------------------------------------------------------------------------
@@ -68,6 +108,8 @@ def key_class(spec):
         return 'slice'
     if t in ('ilist', 'iarr'):
         ps = list(spec[1])
+        if not ps:
+            return 'none'
         if any(p < 0 for p in ps):
             return 'int-list-negmember'
         if ps != sorted(ps):
@@ -89,12 +131,23 @@ def real_key(spec, ax, route):
     return build_positional(spec) if route == 'iloc' else build_label(spec, ax)
 
 
-def frame_key(fm, route, rk, ck):
+def frame_key(fm, route, rk, ck, iface=None):
     if route == 'getitem':
         return real_key(ck, fm.cax, 'loc')
     if ck is None:
-        return real_key(rk, fm.rax, route)
+        k = real_key(rk, fm.rax, route)
+        if isinstance(k, tuple):
+            # a bare tuple is the two-axis syntax; a hierarchical row label needs (label, :) -- which for drop would also drop every column
+            return None if iface == 'drop' else (k, slice(None))
+        return k
     return (real_key(rk, fm.rax, route), real_key(ck, fm.cax, route))
+
+
+def neutral_key(iface, route):
+    """the key of the other axis that leaves it alone: everything for assign / mask, nothing for drop"""
+    if iface == 'drop':
+        return ('ilist', []) if route == 'iloc' else ('lablist', [])
+    return NULL
 
 
 def positions(m):
@@ -307,7 +360,7 @@ def run_op(op, original, snap):
         r, exc = op(), None
     except Exception as e:
         r, exc = None, e
-    mutated = snapshot(original) != snap
+    mutated = snap.mutated() if isinstance(snap, Orig) else snapshot(original) != snap
     return r, exc, mutated
 
 
@@ -316,6 +369,8 @@ def run_op(op, original, snap):
 
 def eval_frame_update(f, snap, fm, iface, route, rk, ck, vspec=None, blame=True):
     """iface: assign / drop / mask / masked_array; route: iloc / loc / getitem"""
+    if DRY:
+        return outcome(True), None
     nr, nc = fm.nrows, len(fm.kinds)
     rm = resolve(rk, nr, fm.rax, route)
     cm = resolve(ck, nc, fm.cax, 'loc' if route == 'getitem' else route)
@@ -324,7 +379,9 @@ def eval_frame_update(f, snap, fm, iface, route, rk, ck, vspec=None, blame=True)
     R, rs = positions(rm)
     C, cs = positions(cm)
     flags = (rm[2] if rm[0] == 'multi' else set()) | (cm[2] if cm[0] == 'multi' else set())
-    key = frame_key(fm, route, rk, ck)
+    key = frame_key(fm, route, rk, ck, iface)
+    if key is None:
+        return outcome(True, nontrivial=False, how='skip'), None
     node = getattr(f, iface)
     sel = (lambda: node.iloc[key]) if route == 'iloc' else (lambda: node.loc[key]) if route == 'loc' else (lambda: node[key])
     kcls = f'rows={key_class(rk)},cols={key_class(ck)}'
@@ -350,7 +407,10 @@ def eval_frame_update(f, snap, fm, iface, route, rk, ck, vspec=None, blame=True)
     elif exc is not None:
         if 'repeats' in flags:
             return outcome(True, nontrivial=False, how='repeat-rejected'), None
-        res = outcome(False, f'{area}:raises-{type(exc).__name__}:{kcls}' + (f':value={vtxt}' if vtxt else ''), f'{iface} raised {type(exc).__name__}: {exc!s:.140}')
+        if iface == 'drop' and ck is not None and len(set(C)) == nc and (len(set(R)) != nr or nr == 0 or True):
+            res = outcome(False, f'{PID}:Frame.drop:all-columns-dropped-with-row-key-raises-{type(exc).__name__}', f'drop of every column together with a row key raised {type(exc).__name__}: {exc!s:.140}')
+        else:
+            res = outcome(False, f'{area}:raises-{type(exc).__name__}:{kcls}' + (f':value={vtxt}' if vtxt else ''), f'{iface} raised {type(exc).__name__}: {exc!s:.140}')
     else:
         import static_frame as sf
         sym = None
@@ -419,14 +479,15 @@ def eval_frame_update(f, snap, fm, iface, route, rk, ck, vspec=None, blame=True)
     if ck is None or route == 'getitem' or rk is None:
         return res, over0
     # attribute the failure to one axis when the single-axis variant fails on its own
-    if ck[0] != 'null':
-        r2, _ = eval_frame_update(f, snap, fm, iface, route, NULL, ck, vspec, blame=False)
+    neutral = neutral_key(iface, route)
+    if ck != neutral:
+        r2, _ = eval_frame_update(f, snap, fm, iface, route, neutral, ck, vspec, blame=False)
         if not r2[0] and r2[4] != 'skip':
-            return r2, dict(over0 or {}, rk=NULL)
-    if rk[0] != 'null':
-        r1, _ = eval_frame_update(f, snap, fm, iface, route, rk, NULL, vspec, blame=False)
+            return r2, dict(over0 or {}, rk=neutral)
+    if rk != neutral:
+        r1, _ = eval_frame_update(f, snap, fm, iface, route, rk, neutral, vspec, blame=False)
         if not r1[0] and r1[4] != 'skip':
-            return r1, dict(over0 or {}, ck=NULL)
+            return r1, dict(over0 or {}, ck=neutral)
     return res, over0
 
 
@@ -436,6 +497,8 @@ def eval_frame_update(f, snap, fm, iface, route, rk, ck, vspec=None, blame=True)
 def eval_frame_bloc(f, snap, fm, kspec, vspec):
     """kspec as in c04 bloc: ('arr', bits) | ('frame', row refs, col refs, bits); vspec: elem / arr2 / series / frame / apply"""
     import static_frame as sf
+    if DRY:
+        return outcome(True)
     nr, nc = fm.nrows, len(fm.kinds)
     if kspec[0] == 'arr':
         bits = kspec[1]
@@ -562,6 +625,8 @@ def series_value(sm, R, rs, vspec):
 
 def eval_series_update(s, snap, sm, iface, route, k, vspec=None):
     import static_frame as sf
+    if DRY:
+        return outcome(True)
     n = sm.n
     m = resolve(k, n, sm.ax, route if route == 'iloc' else 'loc')
     if m[0] in ('raise', 'skip'):
@@ -654,18 +719,25 @@ def update_positional(n, tier, full_slices=True):
         if any(not (-n <= p < n) for p in lst):
             continue
         yield ('ilist', lst)
-        if i % 3 == 0:
+        if i % (6 if tier == 'quick' else 2) == 0:
             yield ('iarr', lst)
     for bits in itertools.product((False, True), repeat=n):
         yield ('bool', list(bits))
 
 
-def rep_rows(n, tier):
+def rep_rows(n, tier, iface=None):
+    out = _rep_rows(n, tier)
+    if iface == 'drop':      # for drop the neutral key is the empty one; dropping every row stays in as one case
+        out = [('ilist', [])] + out
+    return out
+
+
+def _rep_rows(n, tier):
     if n == 0:
         return [NULL, ('slice', None, None, -1), ('bool', [])]
-    out = [NULL, ('int', -1), ('slice', -1, None, -2), ('ilist', [n - 1, 0] if n > 1 else [0]), ('bool', [i % 2 == 0 for i in range(n)])]
+    out = [NULL, ('int', -1), ('ilist', [n - 1, 0] if n > 1 else [0])]
     if tier != 'quick':
-        out += [('int', 0), ('slice', 1, None, None), ('ilist', [-1]), ('bool', [False] * n), ('iarr', list(range(n))[::-1])]
+        out += [('slice', -1, None, -2), ('bool', [i % 2 == 0 for i in range(n)]), ('int', 0), ('slice', 1, None, None), ('ilist', [-1]), ('bool', [False] * n), ('iarr', list(range(n))[::-1])]
     return S._dedupe(out)
 
 
@@ -716,6 +788,11 @@ def _record(rep, res, rp, dk):
         rep.check(False, key, what + f' | case {rp}', rp)
 
 
+def _final(rep, orig, case):
+    if not orig.final_ok():
+        rep.fail(f'{PID}:original-mutated-during-case', f'snapshot of the original container differs after the updates of case {case}', dict(fn='case', case=list(case)))
+
+
 MIXES = {'quick': ['i', 'U', 'if', 'ii', 'bO', 'iii', 'ifU', 'iiii', 'iiff', 'ifUO'],
          'thorough': ['i', 'U', 'f', 'if', 'ii', 'bO', 'iii', 'ifU', 'UUb', 'fOi', 'iiii', 'iiff', 'ifUO', 'fiif', 'bOOM', 'ffff', 'iifU', 'Uiib']}
 
@@ -741,11 +818,11 @@ def _vspecs(rs, cs, group, tier):
 
 
 def quick_slices(n):
-    """quick tier, n = 4: start / stop over every distinct clamping class, 8 steps (800 slices instead of 1584)"""
+    """quick tier, n = 4: start / stop over every distinct clamping class, 6 steps (600 slices instead of 1584)"""
     vals = [None, -n - 1, -n, -n + 1, -1, 0, 1, n - 1, n, n + 1]
     for a in vals:
         for b in vals:
-            for c in (None, 1, 2, 3, -1, -2, -3, -n - 1):
+            for c in (None, 1, 2, -1, -2, -3):
                 yield ('slice', a, b, c)
 
 
@@ -786,7 +863,7 @@ def _assign_pairs(fm, part, tier):
             for ck in assign_keys(nc, tier):
                 yield rk, ck
     else:
-        reps = [NULL, ('int', -1), ('ilist', [nc - 1, 0] if nc > 1 else [0])] + ([('slice', None, None, -1), ('bool', [j % 2 == 0 for j in range(nc)])] if tier != 'quick' else [])
+        reps = [('int', -1), ('ilist', [nc - 1, 0] if nc > 1 else [0])] + ([NULL, ('slice', None, None, -1), ('bool', [j % 2 == 0 for j in range(nc)])] if tier != 'quick' else [])
         for rk in assign_keys(nr, tier):
             for ck in S._dedupe(reps):
                 yield rk, ck
@@ -798,7 +875,7 @@ def _run_assign(repo, task, group):
     rep = Report(f'C08-assign-{group}', task,
                  rule=f'Frame.assign.iloc[r, c](value) and Series.assign.iloc[k](value), {group} values: every dtype-safe 1-D/2-D block layout x (every column key x representative '
                       'row keys) + (every row key x representative column keys) + one-axis keys; keys = all in-range ints, slices with start/stop/step in [-n-1,n+1] U {None} '
-                      '(quick, n=4: every clamping class of start/stop x 8 steps), int lists/arrays of distinct positions in every order written non-negative/negative/mixed + a repeat, '
+                      '(quick, n=4: every clamping class of start/stop x 6 steps), int lists/arrays of distinct positions in every order written non-negative/negative/mixed + a repeat, '
                       'all Boolean arrays; values: ' + ('element (int/str/None/float/bool), 1-D array (int/float/object), tuple, list, 2-D array (int/float/str), 1-D array broadcast over rows'
                                                        if group == 'unlabelled' else
                                                        'Series / Frame with same / reversed / rotated / partial / partial+foreign / foreign labels (default and explicit fill_value), '
@@ -816,7 +893,7 @@ def _run_assign(repo, task, group):
                 _, kind, n = case
                 sm = SeriesModel(kind, n)
                 s = sm.build()
-                snap = snapshot(s)
+                snap = Orig(s)
                 for k in assign_keys(n, tier):
                     R, rs = positions(model_positional(k, n))
                     vs = [v for v in value_specs(rs, True, tier) if (v[0] in UNLABELLED) == (group == 'unlabelled')]
@@ -827,17 +904,20 @@ def _run_assign(repo, task, group):
                 _, kinds, rows, lay, part = case
                 fm = FrameModel(kinds, rows, lay)
                 f = fm.build()
-                snap = snapshot(f)
+                snap = Orig(f)
                 cnt = 0
                 for rk, ck in _assign_pairs(fm, part, tier):
                     rs = rk[0] == 'int'
                     cs = ck is not None and ck[0] == 'int'
                     vs = _vspecs(rs, cs, group, tier)
-                    is_slice = (ck is not None and ck[0] == 'slice') if part == 'cols' else rk[0] == 'slice'
-                    if is_slice:
-                        cnt += 1
-                        vs = [vs[cnt % len(vs)], vs[(cnt * 7 + 3) % len(vs)]] if len(vs) > 1 else vs
-                        vs = S._dedupe(vs)
+                    var = ck if part == 'cols' else rk
+                    is_slice = var is not None and var[0] == 'slice'
+                    cnt += 1
+                    if is_slice and len(vs) > 1:
+                        vs = S._dedupe([vs[cnt % len(vs)], vs[(cnt * 7 + 3) % len(vs)]] if part == 'cols' else [vs[cnt % len(vs)]])
+                    elif tier == 'quick' and var is not None and var[0] in ('ilist', 'iarr') and len(vs) > 5:
+                        # every value shape over the enumeration as a whole: two fixed shapes + three rotating ones per key
+                        vs = S._dedupe([vs[0], vs[4]] + [vs[(cnt + d) % len(vs)] for d in (0, 3, 6)])
                     for v in vs:
                         rp = dict(fn='assign', c='frame', kinds=kinds, rows=rows, layout=lay, rax='str', cax='str', iface='assign', route='iloc', rk=rk, ck=ck, v=v)
                         _record(rep, eval_frame_update(f, snap, fm, 'assign', 'iloc', rk, ck, v), rp, ('f', kinds, rows, repr(lay), repr(rk), repr(ck), repr(v)))
@@ -845,7 +925,7 @@ def _run_assign(repo, task, group):
                 _, kinds, rows, lay, axes = case
                 fm = FrameModel(kinds, rows, lay, axes[0], axes[1])
                 f = fm.build()
-                snap = snapshot(f)
+                snap = Orig(f)
                 for ks in S.bloc_keys(fm, 'quick' if tier == 'quick' else 'quick'):
                     for v in BLOC_VALUES:
                         rp = dict(fn='bloc', kinds=kinds, rows=rows, layout=lay, rax=axes[0], cax=axes[1], k=ks, v=v)
@@ -854,7 +934,7 @@ def _run_assign(repo, task, group):
                 _, kinds, rows, lay, rax, cax = case
                 fm = FrameModel(kinds, rows, lay, rax, cax)
                 f = fm.build()
-                snap = snapshot(f)
+                snap = Orig(f)
                 for route, rk, ck in _label_pairs(fm):
                     rs = rk is not None and (rk[0] == 'lab' or (rk[0] == 'iloc' and rk[1][0] == 'int'))
                     cs = ck is not None and (ck[0] == 'lab' or (ck[0] == 'iloc' and ck[1][0] == 'int'))
@@ -865,13 +945,14 @@ def _run_assign(repo, task, group):
                 _, kind, n, axk = case
                 sm = SeriesModel(kind, n, axk)
                 s = sm.build()
-                snap = snapshot(s)
+                snap = Orig(s)
                 for k in label_update_keys(sm.ax):
                     rs = k[0] == 'lab' or (k[0] == 'iloc' and k[1][0] == 'int')
                     for route in ('loc', 'getitem'):
                         for v in value_specs(rs, True, tier):
                             rp = dict(fn='assign', c='series', kind=kind, n=n, ax=axk, iface='assign', route=route, k=k, v=v)
                             _record(rep, eval_series_update(s, snap, sm, 'assign', route, k, v), rp, ('sl', kind, n, axk, route, repr(k), repr(v)))
+            _final(rep, snap, case)
         except Exception:
             rep.error(f'run_assign[{group}] case {case}')
     return rep.done()
@@ -927,3 +1008,98 @@ def _label_pairs(fm):
         for rk in rreps:
             yield 'loc', rk, ck
         yield 'getitem', None, ck
+
+
+# ---------------------------------------------------------------------------------------------
+# run_drop_mask: drop / mask / masked_array on Frame and Series, iloc (all keys) and loc / getitem forms
+
+def _dm_cases(tier):
+    if tier == 'quick':
+        mixes = ['i', 'if', 'ii', 'bO', 'iii', 'ifU', 'iiii', 'iiff', 'ifUO']
+        rows_for = lambda m: (3,) if m >= 3 else (2, 4) if m == 2 else (0, 1, 3)
+    else:
+        mixes = MIXES['thorough']
+        rows_for = lambda m: (0, 1, 2, 3, 4)
+    out = []
+    for kinds in mixes:
+        for rows in rows_for(len(kinds)):
+            cols = [col_array(k, j, rows) for j, k in enumerate(kinds)]
+            for lay in layouts_dtype_safe(cols):
+                for part in ('cols', 'rows'):
+                    out.append(('frame', kinds, rows, [list(x) for x in lay], part))
+    cost = {0: 10, 1: 60, 2: 200, 3: 500, 4: 1000}
+    out.sort(key=lambda c: -(cost[len(c[1])] if c[4] == 'cols' else cost[c[2]]))
+    out += [('series', kind, n, 'str') for kind in 'ifbUO' for n in (0, 1, 2, 3, 4)]
+    for kinds, rows in (('ifU', 3), ('iiOb', 2)):
+        cols = [col_array(k, j, rows) for j, k in enumerate(kinds)]
+        lays = list(layouts_dtype_safe(cols))
+        for lay in ([lays[0], lays[-1]] if tier == 'quick' else lays):
+            for rax, cax in (('str', 'int'), ('auto', 'str'), ('int', 'auto'), ('ih', 'D')):
+                out.append(('label', kinds, rows, [list(x) for x in lay], rax, cax))
+    for axk in ('str', 'int', 'auto', 'D', 'ih'):
+        for n in (1, 3, 4):
+            out.append(('series-label', 'i', n, axk))
+    return out
+
+
+def run_drop_mask(repo, task):
+    tier = task.get('tier', 'quick')
+    rep = Report('C08-drop-mask', task,
+                 rule='Frame / Series .drop, .mask, .masked_array: every dtype-safe block layout x (every column key x representative row keys) + (every row key x representative '
+                      'column keys) + one-axis keys on the iloc form (all in-range ints, all slices with start/stop/step in [-n-1,n+1] U {None}, int lists/arrays of distinct positions in '
+                      'every order and sign + a repeat, all Boolean arrays); loc / getitem forms (labels, label lists, label slices, Boolean array / Series, ILoc) on str / int / '
+                      'auto-integer / IndexDate / IndexHierarchy axes. Non-trivial: >= 1 cell addressed',
+                 bound=f'columns <= 4, rows <= 4, tier={tier}')
+    for case in rep.shard(_dm_cases(tier)):
+        try:
+            if case[0] == 'frame':
+                _, kinds, rows, lay, part = case
+                fm = FrameModel(kinds, rows, lay)
+                f = fm.build()
+                snap = Orig(f)
+                nr, nc = rows, len(kinds)
+                if part == 'cols':
+                    pairs = [(rk, ck) for rk in rep_rows(nr, tier, 'drop') for ck in update_positional(nc, tier)]
+                else:
+                    reps = S._dedupe([('ilist', []), ('int', -1), ('ilist', [nc - 1, 0] if nc > 1 else [0])] + ([NULL, ('slice', -1, None, -2)] if tier != 'quick' else []))
+                    pairs = [(rk, ck) for rk in update_positional(nr, tier) for ck in reps] + [(rk, None) for rk in update_positional(nr, tier)]
+                for rk, ck in pairs:
+                    for iface in ('drop', 'mask', 'masked_array'):
+                        if iface != 'drop' and (rk == ('ilist', []) or ck == ('ilist', [])) and part == ('cols' if rk == ('ilist', []) else 'rows'):
+                            continue
+                        if iface == 'masked_array' and ((ck is not None and ck[0] == 'slice') or rk[0] == 'slice') and tier == 'quick':
+                            continue
+                        rp = dict(fn='update', c='frame', kinds=kinds, rows=rows, layout=lay, rax='str', cax='str', iface=iface, route='iloc', rk=rk, ck=ck, v=None)
+                        _record(rep, eval_frame_update(f, snap, fm, iface, 'iloc', rk, ck), rp, ('f', iface, kinds, rows, repr(lay), repr(rk), repr(ck)))
+            elif case[0] == 'series':
+                _, kind, n, axk = case
+                sm = SeriesModel(kind, n, axk)
+                s = sm.build()
+                snap = Orig(s)
+                for k in update_positional(n, tier):
+                    for iface in ('drop', 'mask', 'masked_array'):
+                        rp = dict(fn='update', c='series', kind=kind, n=n, ax=axk, iface=iface, route='iloc', k=k, v=None)
+                        _record(rep, eval_series_update(s, snap, sm, iface, 'iloc', k), rp, ('s', iface, kind, n, repr(k)))
+            elif case[0] == 'label':
+                _, kinds, rows, lay, rax, cax = case
+                fm = FrameModel(kinds, rows, lay, rax, cax)
+                f = fm.build()
+                snap = Orig(f)
+                for route, rk, ck in _label_pairs(fm):
+                    for iface in ('drop', 'mask', 'masked_array'):
+                        rp = dict(fn='update', c='frame', kinds=kinds, rows=rows, layout=lay, rax=rax, cax=cax, iface=iface, route=route, rk=rk, ck=ck, v=None)
+                        _record(rep, eval_frame_update(f, snap, fm, iface, route, rk, ck), rp, ('l', iface, kinds, rows, repr(lay), rax, cax, route, repr(rk), repr(ck)))
+            elif case[0] == 'series-label':
+                _, kind, n, axk = case
+                sm = SeriesModel(kind, n, axk)
+                s = sm.build()
+                snap = Orig(s)
+                for k in label_update_keys(sm.ax):
+                    for route in ('loc', 'getitem'):
+                        for iface in ('drop', 'mask', 'masked_array'):
+                            rp = dict(fn='update', c='series', kind=kind, n=n, ax=axk, iface=iface, route=route, k=k, v=None)
+                            _record(rep, eval_series_update(s, snap, sm, iface, route, k), rp, ('sl', iface, kind, n, axk, route, repr(k)))
+            _final(rep, snap, case)
+        except Exception:
+            rep.error(f'run_drop_mask case {case}')
+    return rep.done()
